@@ -77,7 +77,8 @@ async fn cell(set: Arc<CertSet>, state: String) -> Result<String, Fail> {
         "no-topic" => vec![],
         "publisher-only" => vec![("publisher", &t)],
         "subscriber-only" => vec![("subscriber", &t)],
-        "pubsub-idle" | "pubsub-after-traffic" | "pubsub-peers-gone" | "registration-parked" => vec![("subscriber", &t), ("publisher", &t)],
+        "pubsub-idle" | "pubsub-after-traffic" | "pubsub-peers-gone" | "registration-parked" | "slow-subscriber-two-topics" => vec![("subscriber", &t), ("publisher", &t)],
+        s if s.starts_with("burst-of-new-topics") => vec![("subscriber", &t), ("publisher", &t)],
         "replier-only" => vec![("replier", &t)],
         "requestor-only" => vec![("requestor", &t)],
         "reqrep-both" | "reqrep-rejected-replier" => vec![("replier", &t), ("requestor", &t)],
@@ -102,6 +103,54 @@ async fn cell(set: Arc<CertSet>, state: String) -> Result<String, Fail> {
             let _ = held[idx].send(Frame::Message(MessagePayload { headers: None, message: Bytes::from(format!("m{i}").into_bytes()) })).await;
         }
     }
+    // a subscriber that accepts data only slowly (4 KiB of credit at a time, not reading before the
+    // signal) holds up its router with two 200 KiB messages already taken; a second, idle topic exists
+    let mut slow: Option<(RawConn, BiStream)> = None;
+    if state == "slow-subscriber-two-topics" {
+        let sc = RawConn::connect_with_window(addr, &set.ca, Some(&set.client), 4096).await.map_err(|e| setup("small-window connect", e.to_string()))?;
+        let ts = TopicName::try_from("/c16ns/slow").unwrap();
+        let (s, first) = sc.register(reg("subscriber", &ts)).await.map_err(|e| setup("slow subscriber", e.to_string()))?;
+        if first != Some(Frame::Ok) {
+            return Err(setup("slow subscriber", format!("{first:?}")));
+        }
+        let (mut p, first) = raw.register(reg("publisher", &ts)).await.map_err(|e| setup("publisher", e.to_string()))?;
+        if first != Some(Frame::Ok) {
+            return Err(setup("publisher", format!("{first:?}")));
+        }
+        for i in 0..2u8 {
+            let body = Bytes::from(vec![b'a' + i; 200 * 1024]);
+            let _ = tokio::time::timeout(Duration::from_secs(5), p.send(Frame::Message(MessagePayload { headers: None, message: body }))).await;
+        }
+        held.push(p);
+        tokio::time::sleep(Duration::from_millis(300)).await;
+        slow = Some((sc, s));
+    }
+    // first registrations of ever-new topics keep arriving while the signal is delivered
+    let mut burst_tasks = Vec::new();
+    if state.starts_with("burst-of-new-topics") {
+        for k in 0..8 {
+            let set = set.clone();
+            let tag = state.clone();
+            burst_tasks.push(tokio::spawn(async move {
+                let Ok(c) = RawConn::connect(addr, &set.ca, Some(&set.client)).await else { return };
+                let mut keep = Vec::new();
+                for i in 0..400 {
+                    let t = match TopicName::try_from(format!("/c16ns/{}x{k}x{i}", tag.replace('-', "_")).as_str()) {
+                        Ok(t) => t,
+                        Err(_) => return,
+                    };
+                    match tokio::time::timeout(Duration::from_secs(2), c.register(reg("publisher", &t))).await {
+                        Ok(Ok((s, _))) => keep.push(s),
+                        _ => return,
+                    }
+                    if keep.len() > 60 {
+                        keep.drain(..30);
+                    }
+                }
+            }));
+        }
+        tokio::time::sleep(Duration::from_millis(60)).await;
+    }
     let mut parked = None;
     if state == "registration-parked" {
         // a peer that grants no credit on its stream registers on the live topic: the handler of
@@ -121,6 +170,19 @@ async fn cell(set: Arc<CertSet>, state: String) -> Result<String, Fail> {
     unsafe {
         libc::kill(child.id() as i32, libc::SIGINT);
     }
+    // the slow subscriber starts reading now: what its router had taken must still reach it
+    let slow_reader = slow.map(|(sc, mut s)| {
+        tokio::spawn(async move {
+            let mut complete = 0usize;
+            while let Ok(Some(Frame::Message(p))) = net::next_frame(&mut s, Duration::from_secs(20)).await {
+                if p.message.len() == 200 * 1024 {
+                    complete += 1;
+                }
+            }
+            drop(sc);
+            complete
+        })
+    });
     let t0 = Instant::now();
     let status = loop {
         match child.try_wait() {
@@ -134,9 +196,27 @@ async fn cell(set: Arc<CertSet>, state: String) -> Result<String, Fail> {
             Err(e) => return Err(setup("wait", e.to_string())),
         }
     };
+    for t in burst_tasks {
+        t.abort();
+    }
+    let slow_got = match slow_reader {
+        Some(h) => Some(tokio::time::timeout(Duration::from_secs(25), h).await.ok().and_then(|r| r.ok()).unwrap_or(0)),
+        None => None,
+    };
     drop(held);
     drop(parked);
     let _ = std::fs::remove_dir_all(&dir);
+    if let (Some(got), Some(st)) = (slow_got, &status) {
+        // (the very tail of the last message may be cut by the endpoint closing right after the
+        // last router has finished; the first message cannot)
+        if st.success() && got == 0 {
+            return Err(fail(
+                "shutdown-dropped-taken-messages",
+                &class,
+                "two topics; on one of them the router had taken two 200 KiB messages for a subscriber that accepts data slowly and started reading when SIGINT was sent: the server exited and the subscriber received not even the first of them".into(),
+            ));
+        }
+    }
     match status {
         None => {
             let _ = child.kill();
@@ -162,7 +242,7 @@ async fn cell(set: Arc<CertSet>, state: String) -> Result<String, Fail> {
 }
 
 fn cells() -> Vec<Value> {
-    ["no-topic", "publisher-only", "subscriber-only", "pubsub-idle", "pubsub-after-traffic", "pubsub-peers-gone", "replier-only", "requestor-only", "reqrep-both", "reqrep-rejected-replier", "everything", "registration-parked"]
+    ["burst-of-new-topics-1", "burst-of-new-topics-2", "burst-of-new-topics-3", "burst-of-new-topics-4", "burst-of-new-topics-5", "burst-of-new-topics-6", "slow-subscriber-two-topics", "no-topic", "publisher-only", "subscriber-only", "pubsub-idle", "pubsub-after-traffic", "pubsub-peers-gone", "replier-only", "requestor-only", "reqrep-both", "reqrep-rejected-replier", "everything", "registration-parked"]
         .iter()
         .enumerate()
         .map(|(i, s)| json!({"cell": i, "state_at_sigint": s}))
@@ -186,7 +266,7 @@ pub async fn run(tier: &str, replaying: bool) -> ! {
     finish(
         rep,
         outs,
-        "the real server in a child process, brought by raw peers into each of 12 states (no topic; publisher only; subscriber only; idle pub/sub; pub/sub right after a burst of traffic; pub/sub whose peers have left; replier only; requestor only; both; a rejected second replier; pub/sub and request/reply topics together; a registration whose answer cannot be written because the peer grants no flow-control credit), then SIGINT: the process must exit with status 0 within 20 s",
+        "the real server in a child process, brought by raw peers into each of 14 states (six repetitions of: first registrations of ever-new topics arriving from 8 connections while the signal is delivered - schedules SAMPLED by repetition; two topics, one of whose routers holds two 200 KiB messages for a slowly accepting subscriber that starts reading at the signal and must receive at least the first; no topic; publisher only; subscriber only; idle pub/sub; pub/sub right after a burst of traffic; pub/sub whose peers have left; replier only; requestor only; both; a rejected second replier; pub/sub and request/reply topics together; a registration whose answer cannot be written because the peer grants no flow-control credit), then SIGINT: the process must exit with status 0 within 20 s",
         "complements the router-level exploration of C16 (close at every point of every schedule) with Server::shutdown itself: close_channel on every topic, join of all router tasks, endpoint close",
         json!({}),
         replaying,
